@@ -462,3 +462,151 @@ B('e_ds_adoption_condexpr_named_temporary', ['C11'], 'R11.a',
   (A, _DS_INIT, '        self.allowed_methods = None\n'),
   (A, _DS_UPDATE, '        if not methods:\n            return\n        current = self.allowed_methods\n'
                   '        merged = methods if current is None else current\n        merged.update(methods)\n        self.allowed_methods = merged\n'))
+
+# ================================================================== fourth batch
+# ---- R11.e: what bindings accumulate is built on the route being re-bound, never on the original unbound route
+_PATTERN = '        self.pattern = prefix + route.pattern\n'
+_ROUTE_RES = "        self.resources.update(getattr(route, 'resources', {}))\n"
+_MERGE = "        self.middlewares = tuple(merge_middlewares(getattr(route, 'middlewares', []), app_mws))\n"
+B('e_pattern_prefix_on_the_unbound_pattern', ['C10', 'C11'], {'C10': 'R10.b', 'C11': 'R11.e'},
+  (R, _PATTERN, '        self.pattern = prefix + unbound_route.pattern\n'))
+B('e_pattern_from_the_original_through_a_temporary', ['C11'], 'R11.e',
+  (R, _PATTERN, "        base_pattern = self.unbound_route.pattern\n        self.pattern = '%s%s' % (prefix, base_pattern)\n"))
+B('e_resources_overlaid_with_the_unbound_routes', ['C11'], 'R11.e',
+  (R, _ROUTE_RES, "        self.resources.update(getattr(unbound_route, 'resources', {}))\n"))
+B('e_middlewares_merged_from_the_unbound_routes', ['C11'], 'R11.e',
+  (R, _MERGE, "        own_mws = unbound_route.middlewares\n        self.middlewares = tuple(merge_middlewares(own_mws, app_mws))\n"))
+B('e_rebinding_reads_the_original_only_when_rebinding', ['C11'], 'R11.e',
+  (R, _PATTERN, "        source = route.unbound_route if hasattr(route, 'unbound_route') else route\n        self.pattern = prefix + source.pattern\n"))
+B('e_slash_mode_kept_from_the_unbound_route', ['C11'], 'R11.e',
+  (R, 'self.slash_mode = app.slash_mode if inherit_slashes else route.slash_mode', 'self.slash_mode = app.slash_mode if inherit_slashes else unbound_route.slash_mode'))
+B('e_resources_not_built_on_the_routes', ['C11'], 'R11.e',
+  (R, _ROUTE_RES, ''))
+T('e_pattern_of_the_rebound_route_named', ['C10', 'C11'],
+  (R, _PATTERN, '        inner = route\n        inner_pattern = inner.pattern\n        self.pattern = prefix + inner_pattern\n'))
+T('e_methods_read_off_the_unbound_route', ['C10', 'C11'],
+  (R, '        self.methods = route.methods\n', '        self.methods = unbound_route.methods\n'))
+T('e_scope_regrouped_with_temporaries', ['C10', 'C11'],
+  (R, _RESOURCES, "        self.resources = dict(getattr(app, 'resources', {}))\n        self.resources.update(getattr(route, 'resources', {}))\n"
+                  "        route_mws = getattr(route, 'middlewares', [])\n"),
+  (R, _MERGE, '        self.middlewares = tuple(merge_middlewares(route_mws, app_mws))\n'))
+
+# ---- R10.b: the chain of applications is a new list per binding (explicit re-binding distinction, in-place growth)
+_HEAD = ("        self.unbound_route = unbound_route = getattr(route, 'unbound_route', route)\n"
+         "        self.bound_apps = getattr(route, 'bound_apps', []) + [app]\n")
+_REBINDING = ('        rebinding = isinstance(route, BoundRoute)\n'
+              '        unbound_route = route.unbound_route if rebinding else route\n')
+T('e_rebinding_flag_chain_concatenated', ['C10', 'C11'],
+  (R, _HEAD, _REBINDING + '        bound_apps = route.bound_apps if rebinding else []\n        bound_apps = bound_apps + [app]\n'
+                          '        self.unbound_route = unbound_route\n        self.bound_apps = bound_apps\n'))
+T('e_rebinding_flag_chain_copied_then_iadd', ['C10', 'C11'],
+  (R, _HEAD, _REBINDING + '        bound_apps = list(route.bound_apps) if rebinding else []\n        bound_apps += [app]\n'
+                          '        self.unbound_route = unbound_route\n        self.bound_apps = bound_apps\n'))
+B('e_rebinding_flag_chain_iadd_on_the_routes_list', ['C10', 'C11'], {'C10': 'R10.b', 'C11': 'R11.a'},
+  (R, _HEAD, _REBINDING + '        bound_apps = route.bound_apps if rebinding else []\n        bound_apps += [app]\n'
+                          '        self.unbound_route = unbound_route\n        self.bound_apps = bound_apps\n'))
+B('e_chain_local_alias_appended', ['C10', 'C11'], {'C10': 'R10.b', 'C11': 'R11.a'},
+  (R, _BOUND_APPS, "        chain = getattr(route, 'bound_apps', [])\n        chain.append(app)\n        self.bound_apps = chain\n"))
+B('e_chain_or_default_extended', ['C10', 'C11'], {'C10': 'R10.b', 'C11': 'R11.a'},
+  (R, _BOUND_APPS, "        self.bound_apps = getattr(route, 'bound_apps', None) or []\n        self.bound_apps.extend([app])\n"))
+B('e_chain_restarted_at_every_binding', ['C10'], 'R10.b',
+  (R, _BOUND_APPS, '        self.bound_apps = [app]\n'))
+B('e_chain_rebinding_flag_inverted', ['C10'], 'R10.b',
+  (R, _HEAD, _REBINDING + '        bound_apps = ([] if rebinding else list(route.bound_apps)) + [app]\n'
+                          '        self.unbound_route = unbound_route\n        self.bound_apps = bound_apps\n'))
+T('e_chain_local_copy_appended', ['C10', 'C11'],
+  (R, _BOUND_APPS, "        chain = list(getattr(route, 'bound_apps', []))\n        chain.append(app)\n        self.bound_apps = chain\n"))
+T('e_chain_star_display', ['C10', 'C11'],
+  (R, _BOUND_APPS, "        self.bound_apps = [*getattr(route, 'bound_apps', []), app]\n"))
+B('e_unbound_route_rebinding_flag_swapped', ['C10'], 'R10.b',
+  (R, _HEAD, '        rebinding = isinstance(route, BoundRoute)\n        unbound_route = route if rebinding else route.unbound_route\n'
+             "        self.unbound_route = unbound_route\n        self.bound_apps = getattr(route, 'bound_apps', []) + [app]\n"))
+
+# ---- R10.d: the null route's error types, looked up behind a call that is handed the application
+_SENTINEL = ('        err_handler = _application.error_handler\n'
+             '        if _dispatch_state.exceptions:\n'
+             '            return _dispatch_state.exceptions[-1]\n'
+             '        elif _dispatch_state.allowed_methods:\n'
+             '            MNAType = err_handler.method_not_allowed_type\n'
+             '            return MNAType(allowed_methods=_dispatch_state.allowed_methods)\n'
+             '        else:\n'
+             '            NFType = err_handler.not_found_type\n'
+             '            return NFType(dispatch_state=_dispatch_state,\n'
+             '                          request=request,\n'
+             '                          application=_application)\n')
+_STATE_METHOD = ('    def unanswered(self, request, application):\n'
+                 '        err_handler = application.error_handler\n'
+                 '        if self.exceptions:\n'
+                 '            return self.exceptions[-1]\n'
+                 '        if self.allowed_methods:\n'
+                 '            return err_handler.method_not_allowed_type(allowed_methods=self.allowed_methods)\n'
+                 '        return err_handler.not_found_type(dispatch_state=self, request=request, application=application)\n\n'
+                 '    def add_route(self, route):\n')
+T('e_sentinel_decision_moved_to_the_dispatch_state', ['C10', 'C11'],
+  (R, _SENTINEL, '        return _dispatch_state.unanswered(request, _application)\n'),
+  (A, '    def add_route(self, route):\n', _STATE_METHOD))
+B('e_sentinel_decision_moved_and_asked_of_the_innermost_app', ['C10'], 'R10.d',
+  (R, _SENTINEL, '        return _dispatch_state.unanswered(request, _route.bound_apps[0])\n'),
+  (A, '    def add_route(self, route):\n', _STATE_METHOD))
+B('e_sentinel_decision_moved_error_types_of_the_class', ['C10'], 'R10.d',
+  (R, _SENTINEL, '        return _dispatch_state.unanswered(request, _application)\n'),
+  (A, '    def add_route(self, route):\n', _STATE_METHOD.replace('        err_handler = application.error_handler\n', '        err_handler = ErrorHandler\n')))
+
+# ---- bind options kept in a named-tuple container filled by a class method (front-end: dissolved into the pops)
+_OPTS_CLASS = ("class _Options(namedtuple('_Options', ['prefix', 'rebind_render', 'rebind_render_error'])):\n"
+               '    __slots__ = ()\n\n'
+               '    @classmethod\n'
+               '    def from_kwargs(cls, kwargs):\n'
+               "        opts = cls(prefix=kwargs.pop('prefix', ''), rebind_render=kwargs.pop('rebind_render', True),\n"
+               "                   rebind_render_error=kwargs.pop('rebind_render_error', %s))\n"
+               '        if kwargs:\n'
+               "            raise TypeError('unexpected keyword args: %%r' %% kwargs.keys())\n"
+               '        return opts\n\n\n'
+               'class BoundRoute(object):\n')
+_OPTS_USE = ("        inherit_slashes = kwargs.pop('inherit_slashes', True)\n"
+             '        opts = _Options.from_kwargs(kwargs)\n'
+             '        prefix, rebind_render = opts.prefix, opts.rebind_render\n'
+             '        rebind_render_error = opts.rebind_render_error\n')
+_POPS_AND_CHECK = _POPS + "        if kwargs:\n            raise TypeError('unexpected keyword args: %r' % kwargs.keys())\n"
+T('e_bind_options_in_a_named_tuple_container', ['C10', 'C11'],
+  (R, 'import re\n', 'import re\nfrom collections import namedtuple\n'),
+  (R, 'class BoundRoute(object):\n', _OPTS_CLASS % 'True'),
+  (R, _POPS_AND_CHECK, _OPTS_USE))
+B('e_bind_options_container_error_rebinding_off_by_default', ['C10'], 'R10.d',
+  (R, 'import re\n', 'import re\nfrom collections import namedtuple\n'),
+  (R, 'class BoundRoute(object):\n', _OPTS_CLASS % 'False'),
+  (R, _POPS_AND_CHECK, _OPTS_USE))
+B('e_bind_options_container_prefix_field_swapped', ['C10'], 'R10.b',
+  (R, 'import re\n', 'import re\nfrom collections import namedtuple\n'),
+  (R, 'class BoundRoute(object):\n', _OPTS_CLASS % 'True'),
+  (R, _POPS_AND_CHECK, _OPTS_USE.replace('prefix, rebind_render = opts.prefix, opts.rebind_render', 'prefix, rebind_render = opts.rebind_render, opts.prefix')))
+
+# ---- R11.e at the sites that start a re-binding
+B('e_bound_route_rebinds_its_unbound_route', ['C11'], 'R11.e',
+  (R, '        return BoundRoute(self, app, **kwargs)\n\n    def iter_routes(self):\n        yield self\n\n    @property',
+      '        return BoundRoute(self.unbound_route, app, **kwargs)\n\n    def iter_routes(self):\n        yield self\n\n    @property'))
+B('e_bind_all_rebinds_the_unbound_routes', ['C11'], 'R11.e',
+  (A, '            bound_rt = rt.bind(app, **kwargs)\n', '            bound_rt = rt.unbound_route.bind(app, **kwargs)\n'))
+B('e_bind_all_rebinds_the_unbound_routes_named', ['C11'], 'R11.e',
+  (A, '            bound_rt = rt.bind(app, **kwargs)\n', '            declared = rt.unbound_route\n            bound_rt = declared.bind(app, **kwargs)\n'))
+T('e_bound_route_rebinds_itself_named', ['C10', 'C11'],
+  (R, '        return BoundRoute(self, app, **kwargs)\n\n    def iter_routes(self):\n        yield self\n\n    @property',
+      '        inner = self\n        rebound = BoundRoute(inner, app, **kwargs)\n        return rebound\n\n    def iter_routes(self):\n        yield self\n\n    @property'))
+
+# ---- R10.c: the executed chain is compiled at every binding from the list merged at that binding
+_CHAIN = '        self._execute = make_middleware_chain(self.middlewares, unbound_route.endpoint, render, provided)\n'
+B('e_chain_shared_when_the_stack_compares_equal', ['C10'], 'R10.c',
+  (R, _CHAIN, '        chain_key = (self.middlewares, render, frozenset(provided))\n'
+              "        if getattr(route, '_chain_key', None) == chain_key:\n            self._execute = route._execute\n        else:\n    "
+              + _CHAIN + '        self._chain_key = chain_key\n'))
+B('e_chain_taken_over_when_there_is_one', ['C10'], 'R10.c',
+  (R, _CHAIN, "        self._execute = getattr(route, '_execute', None) or make_middleware_chain(self.middlewares, unbound_route.endpoint, render, provided)\n"))
+B('e_chain_kept_when_the_application_adds_no_middleware', ['C10'], 'R10.c',
+  (R, _CHAIN, "        if not app_mws and hasattr(route, '_execute'):\n            inner_chain = route._execute\n            self._execute = inner_chain\n"
+              '        else:\n    ' + _CHAIN))
+B('e_chain_compiled_from_the_unmerged_list', ['C10'], 'R10.c',
+  (R, _CHAIN, "        own_mws = tuple(getattr(route, 'middlewares', ()))\n"
+              '        self._execute = make_middleware_chain(own_mws, unbound_route.endpoint, render, provided)\n'))
+T('e_chain_compiled_through_named_temporaries', ['C10', 'C11'],
+  (R, _MERGE, "        merged = tuple(merge_middlewares(getattr(route, 'middlewares', []), app_mws))\n        self.middlewares = merged\n"),
+  (R, _CHAIN, '        chain = make_middleware_chain(merged, unbound_route.endpoint, render, provided)\n        self._execute = chain\n'))
